@@ -83,7 +83,27 @@ fn owning(variant: usize) -> bool {
     matches!(variant, 1 | 4 | 5)
 }
 
+/// compile-time probe: is `T: Send`? (an inherent method bounded on Send shadows the blanket trait method)
+struct SendProbe<T: ?Sized>(core::marker::PhantomData<T>);
+trait NotSendFallback {
+    fn is_send(&self) -> bool {
+        false
+    }
+}
+impl<T: ?Sized> NotSendFallback for SendProbe<T> {}
+impl<T: ?Sized + Send> SendProbe<T> {
+    fn is_send(&self) -> bool {
+        true
+    }
+}
+
 pub fn execute(plan: &Plan, ctx: &mut Ctx) {
+    // a Reference may hold an Rc or a bare pointer: whatever its payload, it must not be movable to (or
+    // shareable with) another thread, or clones on two threads race on the Rc counts
+    if SendProbe::<Reference<Payload>>(core::marker::PhantomData).is_send() || SendProbe::<&Reference<Payload>>(core::marker::PhantomData).is_send() {
+        ctx.violate("C17", "reference_crosses_threads", "send_sync", "Reference<T> is Send or Sync for a Send + Sync payload: an Rc-backed or pointer-backed handle can be moved to / shared with another thread in safe code".to_string());
+    }
+    ctx.count("reach.send_probe");
     let variant = plan.get("variant").rem_euclid(6) as usize;
     // rrtk built without std (alloc only) has the pointer and the Rc variant; the same histories run on those
     #[cfg(any(feature = "v_libm", feature = "v_micromath"))]
